@@ -566,3 +566,183 @@ pub fn legal(x: &Raw, white: bool, m: &RMove) -> bool {
     let s = successor(x, white, m);
     !king_attacked(&s, white)
 }
+
+// ------------------------------------------------------------------------------------------------
+// Harness inputs. Under Kani `vany()` is `kani::any()` (FUZZ_ON is a constant false there). In the
+// native replay fallback (lib/replay.py: "sparse-mutation search") the same harness is executed natively
+// with FUZZ_ON set and every input read from a byte stream, to find a native run that trips the
+// assertion the solver refuted when Kani's own concrete playback cannot render the trace in time.
+
+pub static mut FUZZ_ON: bool = false;
+pub static mut FUZZ_BYTES: Vec<u8> = Vec::new();
+pub static mut FUZZ_POS: usize = 0;
+
+#[allow(static_mut_refs)]
+fn fuzz_byte() -> u8 {
+    unsafe {
+        let b = if FUZZ_POS < FUZZ_BYTES.len() { FUZZ_BYTES[FUZZ_POS] } else { 0 };
+        FUZZ_POS += 1;
+        b
+    }
+}
+
+pub trait FuzzRead: Sized {
+    fn fuzz_read() -> Self;
+}
+macro_rules! fuzz_int {
+    ($($t:ty),*) => {$(
+        impl FuzzRead for $t {
+            fn fuzz_read() -> Self {
+                let mut v: $t = 0;
+                let mut i = 0;
+                while i < core::mem::size_of::<$t>() {
+                    v |= (fuzz_byte() as $t) << (8 * i);
+                    i += 1;
+                }
+                v
+            }
+        }
+    )*};
+}
+fuzz_int!(u8, u16, u32, u64, usize);
+impl FuzzRead for i16 {
+    fn fuzz_read() -> Self {
+        u16::fuzz_read() as i16
+    }
+}
+impl FuzzRead for bool {
+    fn fuzz_read() -> Self {
+        fuzz_byte() & 1 == 1
+    }
+}
+impl<T: FuzzRead + Copy + Default, const N: usize> FuzzRead for [T; N] {
+    fn fuzz_read() -> Self {
+        let mut a = [T::default(); N];
+        let mut i = 0;
+        while i < N {
+            a[i] = T::fuzz_read();
+            i += 1;
+        }
+        a
+    }
+}
+impl<A: FuzzRead, B: FuzzRead> FuzzRead for (A, B) {
+    fn fuzz_read() -> Self {
+        let a = A::fuzz_read();
+        let b = B::fuzz_read();
+        (a, b)
+    }
+}
+impl<A: FuzzRead, B: FuzzRead, C: FuzzRead> FuzzRead for (A, B, C) {
+    fn fuzz_read() -> Self {
+        let a = A::fuzz_read();
+        let b = B::fuzz_read();
+        let c = C::fuzz_read();
+        (a, b, c)
+    }
+}
+
+#[inline(always)]
+pub fn vany<T: kani::Arbitrary + FuzzRead>() -> T {
+    if unsafe { FUZZ_ON } {
+        T::fuzz_read()
+    } else {
+        kani::any()
+    }
+}
+
+/// native fallback driver (test builds only): run harness `h` on `tries` sparse byte streams; panic with
+/// the reproduced message as soon as a run trips one of `needles`.
+#[cfg(test)]
+#[allow(static_mut_refs)]
+pub fn fuzz_drive(h: fn(), needles: &[&str], tries: usize) {
+    use std::panic;
+    let seed: u64 = std::env::var("VERIF_SEED").ok().and_then(|s| s.parse().ok()).unwrap_or(0);
+    let mut st: u64 = 0x9E3779B97F4A7C15 ^ seed.wrapping_mul(0xD1B54A32D192ED03);
+    let mut rnd = move || {
+        st ^= st << 13;
+        st ^= st >> 7;
+        st ^= st << 17;
+        st
+    };
+    let prev = panic::take_hook();
+    panic::set_hook(Box::new(|_| {}));
+    let vals: [u8; 12] = [1, 2, 4, 8, 16, 32, 64, 128, 255, 3, 15, 7];
+    let mut found: Option<(usize, String, Vec<u8>)> = None;
+    let mut k = 0;
+    while k < tries && found.is_none() {
+        let mut bytes = vec![0u8; 2048];
+        match k % 4 {
+            3 => {
+                for b in bytes.iter_mut() {
+                    *b = rnd() as u8;
+                }
+            }
+            2 => {
+                let mut w = 0;
+                while w < 256 {
+                    if rnd() % 8 == 0 {
+                        bytes[w * 8 + (rnd() % 8) as usize] = 1u8 << (rnd() % 8);
+                    }
+                    w += 1;
+                }
+            }
+            _ => {
+                let events = [1usize, 2, 3, 5, 8, 13, 21, 40][(rnd() % 8) as usize];
+                for _ in 0..events {
+                    let span = if rnd() % 10 < 7 { 320 } else { 2048 };
+                    let p = (rnd() % span) as usize;
+                    let r = rnd();
+                    bytes[p] = if r % 4 == 0 { (r >> 8) as u8 } else { vals[((r >> 8) % 12) as usize] };
+                }
+            }
+        }
+        unsafe {
+            FUZZ_ON = true;
+            FUZZ_BYTES = bytes.clone();
+            FUZZ_POS = 0;
+        }
+        let r = panic::catch_unwind(|| h());
+        let used = unsafe { FUZZ_POS };
+        unsafe {
+            FUZZ_ON = false;
+        }
+        if let Err(e) = r {
+            let msg = if let Some(s) = e.downcast_ref::<&str>() { s.to_string() } else if let Some(s) = e.downcast_ref::<String>() { s.clone() } else { String::new() };
+            if needles.iter().any(|n| msg.contains(n)) {
+                bytes.truncate(used.min(2048));
+                found = Some((k, msg, bytes));
+            }
+        }
+        k += 1;
+    }
+    panic::set_hook(prev);
+    match found {
+        Some((k, msg, bytes)) => {
+            let hex: String = bytes.iter().map(|b| format!("{:02x}", b)).collect();
+            println!("FUZZ-REPRODUCED try={} msg={:?}", k, msg);
+            println!("FUZZ-BYTES {}", hex);
+            panic!("reproduced natively: {}", msg);
+        }
+        None => println!("FUZZ-NOT-REPRODUCED after {} tries", tries),
+    }
+}
+
+/// replay of a recorded byte stream (bin/replay for fuzz-found counterexamples)
+#[cfg(test)]
+#[allow(static_mut_refs)]
+pub fn fuzz_run_bytes(h: fn(), hex: &str) {
+    let mut bytes = Vec::new();
+    let hb = hex.as_bytes();
+    let mut i = 0;
+    while i + 1 < hb.len() {
+        bytes.push(u8::from_str_radix(&hex[i..i + 2], 16).unwrap());
+        i += 2;
+    }
+    unsafe {
+        FUZZ_ON = true;
+        FUZZ_BYTES = bytes;
+        FUZZ_POS = 0;
+    }
+    h();
+}
